@@ -33,6 +33,22 @@ __init__ body, top level, in order:
   ignored (drawing only; may not bind a parameter, store a private attribute, use := / setattr / __dict__ / super):
      self.label(...), self.segments.append(...), NAME = ..., NAME += ... (NAME a fresh local), self.anchors[...] = ...,
      self.node_id = ...
+     Inside such a statement
+       lambda: <expr>         a ZERO-parameter lambda is accepted (a delayed value text, `lambda: dsp.print_resistance(self.R)`); its
+                              body is an expression and is checked like the rest of the statement (no := / setattr / __dict__ ...);
+                              a lambda with parameters or defaults is refused;
+       f(...)                 with f a bare name bound at module level of Elements.py: f must be a class of the module, or a LABEL
+                              HELPER (checked by label_helper_reason): bound once, by an undecorated `def` without parameter defaults, whose body never stores
+                              to an attribute or a subscript, has no := / lambda / nested def / class / del / global / nonlocal /
+                              import / raise / try / while / with / yield, does not mention setattr / vars / __dict__ / ... nor
+                              `.params` / `._userparams`, and calls no module-level function that is not itself a label helper.
+                              (`_name_value_label(name, show_name, show_value, lambda: ...)` building the label text from parts.)
+                              Such a helper computes a value from its arguments and cannot write the modelled state of the
+                              object under construction, so the statement calling it stays drawing-only.  Names that are not
+                              bound at module level (builtins, parameters called inside a helper) are as before.
+  Conditional stores: `self._V = V if not reverse else -V` and `self._V = -V if reverse else V` are both translated literally
+  (EIf (ENot c) a b / EIf c b a); Theory/ElementsDrawingThm.v (neg_if_reverse_spellings) proves the two evaluate alike and its
+  expr_prov reads both as PNegIfReverse; Theory/ElementsGenThm.v runs either.
 Properties: cf_getters lists every `@property def P(self): return self._f` of the class and its local ancestors as (_f, P); other
 properties (G = 1/self._R, Admittance.Y = 1/self._Y, type, ...) are not listed.  The symbol lists a private attribute _x under the key x.
 """
@@ -94,6 +110,7 @@ class Gen:
         self.el = gen_drawing.Elements(src)          # single bindings, pinned shapes of the decorator and of SimpleCircuitElement
         self.path = self.el.path
         self.K = Strings()
+        self.helpers = {}                             # module-level function -> None (label helper) / reason it is not
         self.check_imports()
         self.passthrough = self.extension_decorators()
         self.decorator = self.decorator_facts()
@@ -286,10 +303,66 @@ class Gen:
                     return f'stores self.{n.attr}'
             if isinstance(n, ast.Attribute) and n.attr == '_userparams':
                 return 'uses ._userparams'
-            if isinstance(n, (ast.Lambda, ast.FunctionDef, ast.ClassDef, ast.Delete, ast.Global, ast.Nonlocal, ast.Import, ast.ImportFrom,
-                              ast.Return, ast.Raise, ast.Try, ast.While, ast.With, ast.Yield, ast.YieldFrom, ast.Await)):
+            if isinstance(n, ast.Lambda):
+                la = n.args
+                if la.posonlyargs or la.args or la.vararg or la.kwonlyargs or la.kwarg or la.defaults or la.kw_defaults:
+                    return 'Lambda with parameters'
+                continue                                  # zero-argument lambda: its body is an expression, walked like the rest
+            if isinstance(n, (ast.FunctionDef, ast.AsyncFunctionDef, ast.ClassDef, ast.Delete, ast.Global, ast.Nonlocal, ast.Import,
+                              ast.ImportFrom, ast.Return, ast.Raise, ast.Try, ast.While, ast.With, ast.Yield, ast.YieldFrom, ast.Await)):
                 return type(n).__name__
+            if isinstance(n, ast.Call) and isinstance(n.func, ast.Name) and n.func.id in self.el.bound:
+                sts = self.el.bound[n.func.id]
+                if len(sts) == 1 and isinstance(sts[0], ast.ClassDef):
+                    continue                              # a class of the module (as before: constructing a drawing object)
+                why = self.label_helper_reason(n.func.id)
+                if why:
+                    return f'calls the module-level name {n.func.id}, which is not a label helper ({why})'
         return None
+
+    def label_helper_reason(self, name, active=()):
+        """None when the module-level name `name` of Elements.py is a LABEL HELPER (a function a drawing-only statement may call:
+        it computes a value from its arguments and cannot store into the object under construction), else the reason it is not"""
+        if name in self.helpers:
+            return self.helpers[name]
+        if name in active:
+            return 'recursive'
+        sts = self.el.bound.get(name, [])
+        if len(sts) != 1 or not isinstance(sts[0], ast.FunctionDef):
+            return f'bound {len(sts)} times / not by a def'
+        f = sts[0]
+        why = None
+        if f.decorator_list:
+            why = 'decorated'
+        local = {x.arg for x in f.args.posonlyargs + f.args.args + f.args.kwonlyargs} | \
+            {x.arg for x in (f.args.vararg, f.args.kwarg) if x is not None}
+        for st in f.body:
+            if why:
+                break
+            for n in ast.walk(st):
+                if isinstance(n, ast.Name) and isinstance(n.ctx, ast.Store):
+                    local.add(n.id)
+        if f.args.defaults or any(d is not None for d in f.args.kw_defaults):
+            why = 'parameter defaults'
+        for n in (x for st in f.body for x in ast.walk(st)):
+            if why:
+                break
+            if isinstance(n, (ast.NamedExpr, ast.Lambda, ast.FunctionDef, ast.AsyncFunctionDef, ast.ClassDef, ast.Delete, ast.Global,
+                              ast.Nonlocal, ast.Import, ast.ImportFrom, ast.Raise, ast.Try, ast.While, ast.With, ast.Yield,
+                              ast.YieldFrom, ast.Await, ast.AsyncFor, ast.AsyncWith)):
+                why = f'line {n.lineno}: {type(n).__name__}'
+            elif isinstance(n, (ast.Attribute, ast.Subscript)) and isinstance(n.ctx, (ast.Store, ast.Del)):
+                why = f'line {n.lineno}: stores {ast.unparse(n)}'
+            elif isinstance(n, ast.Name) and n.id in FORBIDDEN_NAMES:
+                why = f'line {n.lineno}: uses {n.id}'
+            elif isinstance(n, ast.Attribute) and (n.attr in FORBIDDEN_NAMES or n.attr in ('_userparams', 'params')):
+                why = f'line {n.lineno}: uses .{n.attr}'
+            elif isinstance(n, ast.Call) and isinstance(n.func, ast.Name) and n.func.id not in local and n.func.id in self.el.bound:
+                inner = self.label_helper_reason(n.func.id, active + (name,))
+                if inner:
+                    why = f'line {n.lineno}: calls {n.func.id} ({inner})'
+        self.helpers[name] = why
+        return why
 
     def statement(self, s, ctx):
         """-> (kind, term) with kind in 'super' / 'stmt' / None (ignored)"""
